@@ -1,5 +1,5 @@
 """C03 — nothing is re-executed unless something it depends on changed."""
-from impl import engine, histgen, tracker
+from impl import engine, histgen, nodekinds, tracker
 
 ASSUMPTIONS = [
     "ground truth of 'what changed' is kept by the harness, which made the edits",
@@ -14,6 +14,8 @@ ASSUMPTIONS = [
     "(model: the project restricted to the tasks collected there, same world)",
     "histories also address the unchanged project through other spellings (../name from a sibling directory, a symlink alias), switch an untracked "
     "fail-flag file on and off, and exchange the contents of inputs that form one hashed Python value",
+    "stream nodekinds: dependencies / products declared as Path, PathNode, plain UPath and UPath('file://…'), touch-only and identical-rewrite edits, "
+    "fixed and changing PYTHONHASHSEED (oracle only; finding F62 classified narrowly)",
 ]
 EDITS = ["touch", "touch", "rewrite_same", "rewrite_same", "write", "revert", "bump", "revert_module", "tamper", "delete_product", "add_task", "flag", "swap"]
 CFGS = [{}, {}, {}, {"k": "task_t00x"}, {"k": "task_t01x or task_t02x"}, {"dry": True}, {"force": True}, {"sub": "?"}, {"sub": "?"}, {"via": "rel"}, {"via": "link"}]
@@ -62,10 +64,13 @@ def nontrivial(h, recs):
 def run(ctx):
     ctx.rule = ("histories as in C02 with the edit mix shifted to touch-only, identical rewrites, edit-then-revert, unrelated edits, selections; oracle = harness "
                 "ground truth of tracked contents at each task's last SUCCESS/PERSISTENCE; non-trivial = ≥3 builds and ≥1 content-preserving or content-changing edit")
+    nodekinds.stream(ctx, "C03")
     engine.run_campaign(ctx, histories(ctx), oracle, nontrivial=nontrivial, sel_eval=engine.sel_eval, rotate_seeds=True)
 
 
 def replay(ctx, obj):
+    if obj.get("input", {}).get("nodekinds"):
+        return nodekinds.replay("C03", obj["input"]["nodekinds"])
     engine.run_campaign(ctx, [obj["input"]["history"]] * 2, oracle, sel_eval=engine.sel_eval)
     if ctx.violations:
         return False, ctx.violations[0]["what"]
